@@ -867,6 +867,25 @@ def _premature(case, obs):
     return out
 
 
+def _parent_cache_hit(case, obs, i):
+    """pull at step i happens in a Workflow that already completed a pull, and no child with a
+    value-holding input was added since: parent.run() is a cache hit and runs nothing upstream"""
+    if not case["parent"]:
+        return False
+    last = None
+    for j in range(i):
+        if len(obs[j]) == 6 and obs[j][4] and obs[j][4][0] == "val":
+            last = j
+    if last is None:
+        return False
+    for k in range(last + 1, i + 1):
+        before = obs[k - 1][2] if k > 0 else len(case["users"])
+        grew = len(obs[k]) == 6 and obs[k][2] > before
+        if grew and any(r[0] == "raw" for r in _step_refs(case["steps"][k])):
+            return False
+    return True
+
+
 def _closure(case, i):
     seen, todo = set(), [i]
     while todo:
@@ -1030,6 +1049,9 @@ def known(case, obs, verdict):
                 fid = "C18-slice-open-ended"
             if fid is None and sig == "exception" and any(k in premature for k in clo):
                 fid = "C18-slice-premature-default"
+            if fid is None and sig == "exception" and obs[i][4] == ["up"] and obs[i][5][0] == ["ReadinessError", None] \
+                    and _parent_cache_hit(case, obs, i):
+                fid = "C18-parent-cache-skips-pull"
         if fid is None or fid not in active:
             return None
         ids.append(fid)
